@@ -1333,6 +1333,15 @@ class AdapterIndex:
         return s[:n]
 
     @staticmethod
+    def _alignment_score(adapter, length, matches, errors):
+        """
+        Convert the number of matches and errors of an index entry into the score that
+        the aligner assigns to that alignment (match: +1, mismatch: -1, indel: -2), so
+        that index matches can be compared to matches found without an index
+        """
+        return len(adapter.sequence) + length - matches - 3 * errors
+
+    @staticmethod
     def _make_prefix_match(adapter, length, score, errors, sequence):
         return RemoveBeforeMatch(
             astart=0,
@@ -1487,7 +1496,8 @@ class AdapterIndex:
                 adapter, e, m = self._index[affix]
             except KeyError:
                 return None
-        return self._make_match(adapter, self._length, m, e, sequence)
+        score = self._alignment_score(adapter, self._length, m, e)
+        return self._make_match(adapter, self._length, score, e, sequence)
 
     def _match_to_multiple_lengths(self, sequence: str):
         """
@@ -1533,7 +1543,8 @@ class AdapterIndex:
         if best_m == -1:
             return None
         else:
-            return self._make_match(best_adapter, best_length, best_m, best_e, sequence)
+            score = self._alignment_score(best_adapter, best_length, best_m, best_e)
+            return self._make_match(best_adapter, best_length, score, best_e, sequence)
 
     def _lookup_with_n(self, affix):
         # N wildcards and any other characters that are not A, C, G or T need to be
@@ -1556,7 +1567,9 @@ class AdapterIndex:
             # The adapter aligns to only a part of this affix. The caller would report
             # the whole affix as removed; the shorter affix is looked up in its own turn.
             return None
-        return adapter, match.errors, match.score
+        # Index entries store the number of matches, not the alignment score
+        matches = len(adapter.sequence) + len(affix) - match.score - 3 * match.errors
+        return adapter, match.errors, matches
 
 
 class IndexedPrefixAdapters(Matchable):
